@@ -305,15 +305,20 @@ pub fn widen_pipe(c: &Case, open: &[String], excluded: &mut Vec<String>) -> Case
     }
     if open.iter().any(|o| o == "KF-engine-channel-deadlock") {
         let mut hit = false;
+        // with a window of a few frames the session answers (almost) every incoming frame with a flow, so a
+        // delivery of n frames puts about n frames into the opposite channels: the buffers have to exceed
+        // the longest delivery, not just a constant
+        let tiny_window = c.duo.incoming_window.iter().any(|w| *w < 8);
+        let floor = if tiny_window { 4096 } else { 32 };
         for b in c.duo.conn_buf.iter_mut().chain(c.duo.sess_buf.iter_mut()) {
-            if *b < 32 {
-                *b = 32;
+            if *b < floor {
+                *b = floor;
                 hit = true;
             }
         }
         for l in c.links.iter_mut() {
-            if l.cfg.link_buf < 32 {
-                l.cfg.link_buf = 32;
+            if l.cfg.link_buf < floor {
+                l.cfg.link_buf = floor;
                 hit = true;
             }
         }
